@@ -32,6 +32,7 @@ type Prog struct {
 	fileOf   map[*ast.File]*packages.Package
 	cg       *CG
 	callersMemo map[*ssa.Function][]ssa.CallInstruction
+	addrTakenMemo map[*ssa.Function]bool
 	Patterns []string
 	Tags     string
 	LoadSecs float64
